@@ -308,10 +308,10 @@ class GroupedRecord(Record):
             return getattr(x, attr)
         raise AttributeError(attr)
 
-    def _pack(self):
+    def _pack(self, unversioned=False, excluded_fields=None):
         return (
             self.name,
-            tuple(record._pack() for record in self.records),
+            tuple(record._pack(unversioned=unversioned, excluded_fields=excluded_fields) for record in self.records),
         )
 
     def _replace(self, **kwds):
